@@ -373,6 +373,15 @@ func cmdCheck(args []string) int {
 			failing = append(failing, &Obligation{Name: r.Key + "#reach.ret", Kind: "reach.ret", Fn: r.Key, Status: "unsat", Model: "no return of the function is reachable under its precondition: every postcondition holds vacuously"})
 			total++
 		}
+		if r.Fn != nil {
+			if con := w.contractFor(r.Fn); con != nil {
+				for _, ms := range con.MissingSites {
+					parts := strings.SplitN(ms, "|", 2)
+					failing = append(failing, &Obligation{Name: r.Key + "#" + parts[0], Kind: "call.exists", Fn: r.Key, Status: "absent", Model: parts[1]})
+					total++
+				}
+			}
+		}
 		for _, em := range r.Errs {
 			failing = append(failing, &Obligation{Name: r.Key + "#in-subset", Kind: "in-subset", Fn: r.Key, Status: "out-of-reach", Model: em})
 			total++
